@@ -172,7 +172,7 @@ func (l *Lexer) scanInLine() Token {
 	case ch == '"':
 		return l.scanQuotedCommodity()
 	case ch == '-' || ch == '+':
-		if l.nextIsCurrencySymbol() || l.nextIsLetterCommodity() || l.nextIsDigit() {
+		if l.nextIsCurrencySymbol() || l.nextIsLetterCommodity() || l.nextIsDigit() || l.nextIsQuote() {
 			return l.scanSign()
 		}
 		return l.scanText()
@@ -575,6 +575,10 @@ func (l *Lexer) nextIsCurrencySymbol() bool {
 	return l.isCurrencySymbol(r)
 }
 
+func (l *Lexer) nextIsQuote() bool {
+	return l.pos+1 < len(l.input) && l.input[l.pos+1] == '"'
+}
+
 func (l *Lexer) nextIsDigit() bool {
 	if l.pos+1 >= len(l.input) {
 		return false
@@ -592,6 +596,15 @@ func (l *Lexer) nextIsLetterCommodity() bool {
 	}
 	for pos < len(l.input) && l.isLetter(l.input[pos]) {
 		pos++
+	}
+	// the commodity may be separated from its number by blanks ("-EUR 11")
+	if end := pos; end < len(l.input) && l.input[end] == ' ' && l.isAllUppercase(l.input[l.pos+1:end]) {
+		for end < len(l.input) && l.input[end] == ' ' {
+			end++
+		}
+		if end < len(l.input) && l.isDigit(l.input[end]) {
+			return true
+		}
 	}
 	if pos >= len(l.input) {
 		return false
